@@ -479,8 +479,13 @@ func (fx *Fx) applyContract(st *State, ct *Contract, fn *ssa.Function, args []Va
 		st.StoreCell(KObj, loc.Obj, loc.Lo, LocalObj(lo.ID), True())
 		st.Escaped[lo.ID] = true
 	}
+	for _, g := range ct.GhostHavoc {
+		if old, ok := st.Ghost[g]; ok {
+			st.Ghost[g] = Sym(freshName("G!"+g), old.S)
+		}
+	}
 	for _, g := range ct.GhostSets {
-		st.Ghost[g.Label] = fx.P.elab(fx, g.X, post).Scalar()
+		st.Ghost[g.Label] = coerceTo(fx.P.elab(fx, g.X, post).Scalar(), st.Ghost[g.Label].S)
 	}
 	for _, e := range ct.Ensures {
 		fx.assume(st, fx.P.elab(fx, e.X, post).Scalar())
